@@ -101,6 +101,12 @@ def corrupt(path, c, d):
             else:
                 ev.create_dataset("index", data=np.arange(
                     len(ev["deform"]))[::-1] + 1)
+        elif c == "indexoffset":
+            n = len(ev["deform"])
+            if "index" in ev:
+                del ev["index"]
+            ev.create_dataset("index", data=np.arange(n) + (
+                0 if n % 2 else 8))
         elif c == "chcount":
             h5.attrs["fluorescence:channel count"] = 3
         elif c == "lasers":
@@ -198,9 +204,10 @@ def main(tier, seed, replay=None):
                "appends, export, filtered export, compress, repack, "
                "condense, split part, join) x image-shaped content (every "
                "subset of image, image_bg, mask; subsets other than "
-               "image+mask with the corruptions that depend on it) x every set of at most two of 12 "
+               "image+mask with the corruptions that depend on it) x every set of at most two of 13 "
                "seeded corruptions (feature length, ROI size, unknown "
-               "feature, missing mandatory key, index order, channel count, "
+               "feature, missing mandatory key, index order, index offset, "
+               "channel count, "
                "laser count, samples per event, external link, non-positive "
                "flow rate / pixel size / channel width) x copy by compress / "
                "repack; each file is produced by the real write path from a "
